@@ -165,6 +165,11 @@ func (c *Client) Hello(localName string) error {
 	if err := validateLine(localName); err != nil {
 		return err
 	}
+	for i := 0; i < len(localName); i++ {
+		if localName[i] <= ' ' || localName[i] == 0x7f {
+			return errors.New("smtp: the HELO/EHLO name must not contain blanks or control characters")
+		}
+	}
 	if c.didHello {
 		return errors.New("smtp: Hello called after other methods")
 	}
